@@ -180,6 +180,7 @@ impl Prop for C05 {
             reopen: 0,
             rebuild: 0,
             extra: 0,
+            pressure: 0,
         };
         let cfg = EvCfg {
             authors: 3,
